@@ -31,10 +31,10 @@ rt/toast_tile_area/value    area(tile) != independent spherical area            
 
 Bounds
 ------
-quick   : full enumeration (bottom_only False and True) to depth 7, both systems; shared corners /
-          nesting on those levels; areas exhaustively to depth 6; create_single_tile exhaustively
-          to depth 4 + 300 random positions of depth <= 24; 40 filtered enumerations (depth <= 6);
-          200 point look-ups (depth <= 14).
+quick   : full enumeration (bottom_only False; True to depth 6) to depth 8, both systems; shared
+          corners / nesting on those levels; areas exhaustively to depth 7; create_single_tile
+          exhaustively to depth 5 + 800 random positions of depth <= 24; 60 filtered enumerations
+          (depth <= 6); 500 point look-ups (depth <= 14)   [all numbers per coordinate system].
 thorough: enumeration to depth 9; areas to depth 8; single tiles exhaustively to depth 6 + 6000
           random positions to depth 24; 300 filtered enumerations (depth <= 8); 3000 look-ups.
 
@@ -101,6 +101,31 @@ def _check_tile(rep, coordsys, route, tile, extra=None):
             "diagonal orientation of tile (%d,%d,%d) is %r, documented %r" % (n, x, y, bool(tile.increasing), bool(inc)))
         ok = False
     return ok
+
+
+def _check_tiles_bulk(rep, coordsys, route, tiles, extra=None):
+    """_check_tile for many tiles at once (levels <= 10 through the cached global lattice)."""
+    good = True
+    by_level = {}
+    for t in tiles:
+        by_level.setdefault(int(t.pos.n), []).append(t)
+    for n, ts in sorted(by_level.items()):
+        if n > 10 or len(ts) < 8:
+            for t in ts:
+                good &= _check_tile(rep, coordsys, route, t, extra)
+            continue
+        L, inc = S.lattice(coordsys, n)
+        xs = np.array([t.pos.x for t in ts], dtype=np.int64)
+        ys = np.array([t.pos.y for t in ts], dtype=np.int64)
+        c = np.array([np.asarray(t.corners, dtype=float).reshape(4, 2) for t in ts])
+        v = S.ll2v(c[..., 0], c[..., 1])
+        q = np.stack([L[xs, ys], L[xs + 1, ys], L[xs + 1, ys + 1], L[xs, ys + 1]], axis=1)
+        d = S.chord(v, q)
+        gi = np.array([bool(t.increasing) for t in ts])
+        bad = ~np.all(d <= TOL_POS, axis=1) | (gi != inc[xs, ys])
+        for i in np.nonzero(bad)[0]:
+            good &= _check_tile(rep, coordsys, route, ts[int(i)], extra)   # the scalar path words the report
+    return good
 
 
 # ---------------------------------------------------------------------------------------------
@@ -417,8 +442,7 @@ def _filtered_case(ctx, rep, T, Pos, coordsys, depth, bottom_only, kind, params,
             "filtered enumeration yields a wrong set: missing %s extra %s repeated %s" % (missing, extra, repeated[:5]))
         good = False
     extra_w = {"depth": depth, "bottom_only": bottom_only, "filter": fdesc}
-    for key in sorted(seen):
-        good &= _check_tile(rep, coordsys, "generate_tiles_filtered", seen[key], extra_w)
+    good &= _check_tiles_bulk(rep, coordsys, "generate_tiles_filtered", [seen[key] for key in sorted(seen)], extra_w)
     # route agreement on a few of them (direct, no oracle)
     keys = sorted(seen)
     step = max(1, len(keys) // max(1, check_single))
@@ -498,14 +522,14 @@ def run(ctx):
     rep = _Rep(ctx)
     rng = ctx.rng
     thorough = ctx.thorough
-    d_enum = 9 if thorough else 7
-    d_area = 8 if thorough else 6
-    d_single = 6 if thorough else 4
-    n_deep = 6000 if thorough else 300
+    d_enum = 9 if thorough else 8
+    d_area = 8 if thorough else 7
+    d_single = 6 if thorough else 5
+    n_deep = 6000 if thorough else 800
     max_deep = 24
-    n_filt = 300 if thorough else 40
+    n_filt = 300 if thorough else 60
     d_filt = 8 if thorough else 6
-    n_look = 3000 if thorough else 200
+    n_look = 3000 if thorough else 500
     d_look = 14
 
     ctx.bound("both coordinate systems; generate_tiles(depth, bottom_only=False) for depth = %d and bottom_only=True for "
